@@ -297,6 +297,9 @@ def impl_graphset(chk, cfg, jobs):
     for (n1, n2), ed in g.edges.items():
         if onp.asarray(ed.seq_out).shape != onp.asarray(g.vertices[n1].seq).shape:
             chk.violation("edge-shape", f"edge {(n1, n2)} does not have one entry per sender vertex", case); return
+    for nm, arrs in [(n, (v.ts_start, v.ts_end)) for n, v in g.vertices.items()] + [(k, (ed.ts_recv,)) for k, ed in g.edges.items()]:
+        if not all(onp.isfinite(onp.asarray(a)).all() for a in arrs):
+            chk.violation("non-finite-timestamp", f"{nm}: a stored time stamp is inf/nan", case); return
     # --- per episode: networkx validation + acyclicity, then a model job
     eps_data = [graph_to_py(g, e) for e in range(neps)]
     if g0 is not None:
@@ -503,7 +506,7 @@ def gen_cases(chk, n_gen, n_aug, n_off):
 
 
 def run(chk, replay=None):
-    chk.stage_proofs(kernels=["Generate"])
+    chk.stage_proofs(kernels=["GenGraph"])
     quick = chk.tier == "quick"
     if replay:
         rp = json.load(open(replay)); cases = [eval(rp["case"]["repr"], {"Fraction": Fraction})]
